@@ -60,7 +60,8 @@ class Block:
         for slot in self.order:
             kind, name = self.slots[slot]
             if kind == 'lt':
-                parts.append(name)
+                o = getattr(self, 'lt_bounds', {}).get(slot)      # an inline outlives bound `'a: 'b`
+                parts.append('%s: %s' % (name, self.slots[o][1]) if (o and with_bounds and o in self.slots) else name)
             elif kind == 'const':
                 parts.append('const %s: usize' % name)
             else:
@@ -507,22 +508,36 @@ def gen_targs_case(rng, variant=None, idx=None):
     elif variant == 'default_omitted':
         # a defaulted (bounded) trailing parameter omitted at every use site, after a lifetime
         # or const parameter
-        if rng.random() < 0.5:
+        shape = pk.choice(['relaxed', 'lt', 'const_first', 'const_default'])
+        if shape == 'lt':
             tg = "<'a, P: 'a, Q: Tr0 = X0>"
             blocks = fam("{L0}, {T1}", "&{L0} {T0}", ['L0', 'T0', 'T1'], rng.sample(GROUPS, 2), 0)
             for b in blocks:
                 b.bounds.append(('{T1}', "__outlives__", {}, 'where'))
             targs_pool = ["'static, X1", "'static, X0", "'static, X1, Vec<X0>"]
-        elif rng.random() < 0.5:
+        elif shape == 'const_first':
             tg = '<const N: usize, P, Q: Tr0 = X0>'
             blocks = fam('2, {T1}', '{T0}', ['T0', 'T1'], rng.sample(GROUPS, 2), 0)
             targs_pool = ['2, X1', '2, X0, Vec<X0>', '3, X1']
-        else:
+        elif shape == 'const_default':
             # a defaulted CONST parameter omitted at the use site (the trait's items mention it)
             tg = '<P, const N: usize = 3>'
             blocks = fam('{T1}', '{T0}', ['T0', 'T1'], rng.sample(GROUPS, 2), 0)
             targs_pool = ['X1', 'X0', 'X1, 2']
-        extra_world = 'impl Tr0 for X0 {}\nimpl Tr0 for Vec<X0> {}\n'
+        else:
+            # a RELAXED defaulted parameter omitted at the use site: its default is a concrete
+            # (here unsized) type, no bound of it may reach the main impl
+            tg = rng.choice(['<P, Q: ?Sized = str>', '<P, Q: ?Sized + Tr0 = str>', "<'a, P: 'a, Q: ?Sized = [u8]>"])
+            if tg.startswith("<'a"):
+                blocks = fam("{L0}, {T1}", "&{L0} {T0}", ['L0', 'T0', 'T1'], rng.sample(GROUPS, 2), 0)
+                for b in blocks:
+                    b.bounds.append(('{T1}', "__outlives__", {}, 'where'))
+                targs_pool = ["'static, X1", "'static, X0"]
+            else:
+                blocks = fam('{T1}', '{T0}', ['T0', 'T1'], rng.sample(GROUPS, 2), 0)
+                targs_pool = ['X1', 'X0', 'X1, X0']
+            extra_world = 'impl Tr0 for str {}\n'
+        extra_world = extra_world + 'impl Tr0 for X0 {}\nimpl Tr0 for Vec<X0> {}\n'
     elif variant == 'nested_unsized':
         # a ?Sized trait parameter; a general block `K<U> for T` next to the reflexive `K<T> for T`
         tg = '<P: ?Sized>'
@@ -1036,6 +1051,32 @@ def gen_case(rng, kind, idx=None):
         for key in list(world):
             if world[key] is not None:
                 world[key] = {'G': rng.choice(vals)}
+        return Case(kind, 'K', '', blocks, probes, world)
+    elif kind == 'shiftoverlap':
+        # a nested header in which a concrete type precedes the parameter, so the positional
+        # names shift ((T, U) = (_0, _1) over (X0, Y) = (X0, _0)); the nested block bounds the
+        # parameter the general block does NOT dispatch on: it cannot join the family, its own main
+        # impl overlaps the general one, and a type satisfying both must make the program fail
+        gen_h, spec = pk.choice([('pair', '(X0, {T0})'), ('pair', '(Vec<X0>, {T0})'), ('vecpair', '(Vec<X0>, {T0})')])
+        tr = pk.choice(['D', 'D2'])
+        g = rng.sample(GROUPS, 3)
+        pl = lambda: rng.choice(['inline', 'where'])
+        general = [Block(mk_slots(rng, ['T0', 'T1']), None, HEADERS[gen_h][0], [('{T0}', tr, {'G': g[i]}, pl())], 'b%d' % i) for i in range(pk.choice([1, 2]))]
+        nb = Block(mk_slots(rng, ['T0']), None, spec, [('{T0}', tr, {'G': g[2]}, pl())], 'bn')
+        blocks = general + [nb]
+        headers = [HEADERS[gen_h]] * len(general) + [(spec, ['T0'])]
+        if rng.random() < 0.5:
+            order = list(range(len(blocks))); rng.shuffle(order)
+            blocks = [blocks[i] for i in order]; headers = [headers[i] for i in order]
+        for i, b in enumerate(blocks):
+            b.tag = 'b%d' % i
+        probes, world = build_world_and_probes(rng, blocks, headers, nprobes=8, impl_rate=0.95, prefer_rate=0.7)
+        # witnesses: the fixed first component satisfies a general block, some second component the nested one
+        world[('X0', tr)] = {a: g[0] for a in assocs_of(tr)}
+        world[('Vec<X0>', tr)] = {a: g[0] for a in assocs_of(tr)}
+        for a in ATOMS[1:3]:
+            world[(a, tr)] = {x: g[2] for x in assocs_of(tr)}
+        probes += [(None, spec.format(T0=a)) for a in ATOMS[1:3]]
         return Case(kind, 'K', '', blocks, probes, world)
     elif kind == 'tworoots_overlap':
         # as `tworoots`, but the common specialisation repeats a left block's condition on the
